@@ -207,49 +207,42 @@ def group_case(args):
         tmp = tempfile.mkdtemp(prefix='c06g_')
         storage = LocalStorage(tmp)
     try:
-        # tasks that compare equal (1 == True == 1.0, 'RED' == StrEnumLike.RED) are one task to a
-        # single run_tasks call: keep only the first of each equality class in a group
-        uniq, seen_eq = [], set()
-        for it in items:
-            t = TYPES[it[0]](p=build(it[1], types=TYPES))
-            if t in seen_eq:
-                continue
-            seen_eq.add(t)
-            uniq.append(it)
-        items = uniq
-
-        def mk_all():
-            return [TYPES[tn](p=build(tree, types=TYPES)) for tn, tree, _ in items]
+        # every task gets its own run_tasks call (tasks that compare equal - 1 == True == 1.0,
+        # 'RED' == StrEnumLike.RED - are one task to a single call, but distinct tasks to the cache)
+        def mk(it):
+            return TYPES[it[0]](p=build(it[1], types=TYPES))
         start, dur = CLOCKS[clock]
-        t1 = mk_all()
-        FakeDatetime.script = [start, start + dur] * (4 * len(t1) + 8)
-        WORLD.reset(epoch=1)
-        r1 = labtech.Lab(storage=storage, runner_backend='serial', notebook=False).run_tasks(t1, disable_progress=True, disable_top=True)
-        executed1 = {ev[1][2] for ev in WORLD.log if ev[0] == 'start'}
-        t2 = mk_all()
-        WORLD.reset(epoch=2)
-        FakeDatetime.script = [datetime(2000, 1, 1), datetime(2000, 1, 1, 0, 0, 9)] * (4 * len(t1) + 8)
-        lab2 = labtech.Lab(storage=storage, runner_backend='serial', notebook=False)
-        r2 = lab2.run_tasks(t2, disable_progress=True, disable_top=True)
-        executed2 = {ev[1][2] for ev in WORLD.log if ev[0] == 'start'}
         want_meta = ResultMeta(start=start, duration=dur)
-        for a, b, it in zip(t1, t2, items):
-            d = f'[{storage_kind}, shared storage] {it[0]}({describe(it[1]) if it[0] != "Shape" else it[1]})'
-            if isinstance(a._lt.cache, labtech.cache.NullCache):
+        first = []
+        for it in items:
+            t = mk(it)
+            d = f'[{storage_kind}, shared storage] {it[0]}({describe(it[1])})'
+            FakeDatetime.script = [start, start + dur] * 8
+            WORLD.reset(epoch=1)
+            r = labtech.Lab(storage=storage, runner_backend='serial', notebook=False).run_tasks([t], disable_progress=True, disable_top=True)
+            v = r.get(t)
+            first.append(v)
+            if isinstance(t._lt.cache, labtech.cache.NullCache):
                 continue
-            if a.cache_key not in executed1:
-                # an equal task (1 == True) took its place in the first run, or its key collided: it must then run now
-                if b not in r2 or r2[b][3] != canon(b):
-                    out.append(('foreign-result', f'{d}: never executed under its own key, yet got {str(r2.get(b))[:160]}', 1))
+            if v is None or v[3] != canon(t):
+                out.append(('foreign-result', f'{d}: first request returned a result stored for another task: {str(v)[:160]}', 1))
+        for it, v1 in zip(items, first):
+            t = mk(it)
+            if isinstance(t._lt.cache, labtech.cache.NullCache):
                 continue
-            if b.cache_key in executed2:
+            d = f'[{storage_kind}, shared storage] {it[0]}({describe(it[1])})'
+            WORLD.reset(epoch=2)
+            FakeDatetime.script = [datetime(2000, 1, 1), datetime(2000, 1, 1, 0, 0, 9)] * 8
+            lab2 = labtech.Lab(storage=storage, runner_backend='serial', notebook=False)
+            r2 = lab2.run_tasks([t], disable_progress=True, disable_top=True)
+            if any(ev[0] == 'start' and ev[1][2] == t.cache_key for ev in WORLD.log):
                 out.append(('re-executed', f'{d}: executed again although cached', 1))
-            if b not in r2 or r2[b] != r1.get(a):
-                out.append(('value-differs', f'{d}: loaded {str(r2.get(b))[:120]} stored {str(r1.get(a))[:120]}', 1))
-            elif r2[b][3] != canon(b):
-                out.append(('foreign-result', f'{d}: loaded a result stored for {r2[b][3]}', 1))
-            if b.result_meta != want_meta:
-                out.append(('meta-differs', f'{d}: loaded result_meta {b.result_meta} recorded {want_meta}', 1))
+            if t not in r2 or r2[t] != v1:
+                out.append(('value-differs', f'{d}: loaded {str(r2.get(t))[:120]} stored {str(v1)[:120]}', 1))
+            elif r2[t][3] != canon(t):
+                out.append(('foreign-result', f'{d}: loaded a result stored for {r2[t][3]}', 1))
+            if t.result_meta != want_meta:
+                out.append(('meta-differs', f'{d}: loaded result_meta {t.result_meta} recorded {want_meta}', 1))
         return out, len(items)
     finally:
         lt_base.datetime = orig_dt
